@@ -92,7 +92,7 @@ theorem tr_invariance_no_fragment_cycles (T : Tr) (hinj : ∀ a b, T.frag a = T.
     (hv : fx.v11 = true) (d : Doc) (hnd : Spec.uniqueFragmentNames d) (hne : NamesNonEmpty d)
     (hne' : NamesNonEmpty (T.doc d)) :
     Silent s fx .noFragmentCycles (T.doc d) ↔ Silent s fx .noFragmentCycles d := by
-  have hnd' : (Spec.fragNames (T.doc d)).Nodup := (spec_tr T hinj s d .uniqueFragmentNames (by decide)).mpr hnd
+  have hnd' : (Spec.fragNames (T.doc d)).Nodup := (spec_tr T hinj s d .uniqueFragmentNames (by decide) (by decide)).mpr hnd
   rw [rule_no_fragment_cycles_iff s fx hv _ hnd' hne', rule_no_fragment_cycles_iff s fx hv d hnd hne]
   exact no_fragment_cycles_spec_tr T hinj d
 
